@@ -22,7 +22,8 @@ os.environ["VERIF_C05_FIXED_F5"] = str(FIXED5)
 # node rooted in a tree that does not allow extensions was listed behind the tree; record)
 FIXED7 = int(os.environ.get("VERIF_C05_FIXED_F7", "1"))   # fix commit f2636f2 is in /repo
 
-# 0 (default): the current code (a TSV location named *.TSV cannot be loaded back: finding C05-F8); 1: with the proposed fix-F8
+# 1 (default): the current code, which contains fix commit b5f4533 (C05-F8); 0: the code before it, where a TSV location
+# named *.TSV could not be loaded back (record)
 FIXED8 = int(os.environ.get("VERIF_C05_FIXED_F8", "1"))   # fix commit b5f4533 is in /repo
 os.environ["VERIF_C05_FIXED_F8"] = str(FIXED8)
 
@@ -33,7 +34,7 @@ CELL_SPECIAL = ["n/a", "N/A", "NA", "na", "nan", "NaN", "-nan", "None", "none", 
 # Names of TSV save locations (the last path component): folders with dots, the .tsv form, suffix case, blanks
 LOC_NAMES = ["sch", "HED8.3.0", "HED_score_2.0.0", "a.b.c", "v1.2", "trailing.", ".hidden", "sp ace", "\u00fcn\u00ef.1",
              "x.tsv", "y.v1.tsv", "tsv", "x.tsv.d", "Tsv.dir"]
-LOC_NAMES_UPPER = ["x.TSV", "y.Tsv", "z.v2.TSV"]          # finding C05-F8 unless VERIF_C05_FIXED_F8=1
+LOC_NAMES_UPPER = ["x.TSV", "y.Tsv", "z.v2.TSV"]          # must load back (repaired finding C05-F8, b5f4533); a known finding only with VERIF_C05_FIXED_F8=0
 
 # One representative of every kind of non-ASCII code point of the schema text class ("printable ASCII except
 # , [ ] { } plus every code point above 127") that some API treats specially.  Below 128 nothing else is in the
